@@ -170,7 +170,8 @@ func DecName(s string) string {
 func EncPax(m map[string]string) string {
 	keys := []string{}
 	for k := range m {
-		if strings.HasPrefix(k, "STFS.") {
+		// signatures and the encrypted-header wrapper are random per record: not compared
+		if strings.HasPrefix(k, "STFS.") && k != "STFS.Signature" && k != "STFS.EmbeddedHeader" {
 			keys = append(keys, k)
 		}
 	}
